@@ -201,7 +201,7 @@ def _spec_py(spec):
         return bytes.fromhex(arg), "bytes"
     if tag == "P":
         return tuple(range(int(arg))), "tuple"
-    if tag in ("L", "D", "CS", "E", "R", "CI", "X", "O"):
+    if tag in ("L", "D", "A", "CS", "E", "R", "CI", "X", "O"):
         return list(range(int(arg))), "iter"
     return None
 
@@ -328,8 +328,15 @@ def glue_case(r, f, case, impl, mline):
 
 def run(r):
     r.rule = ("exhaustive enumeration of (kind, len 0..6, start, stop in {omitted} U [-9,9] U {i64 boundaries}, step in "
-              "{omitted} U [-4,4] U {i64 boundaries}) as context variables (+ literal forms); a case is non-trivial when "
-              "it is distinct and selects from a non-empty sequence")
+              "{omitted} U [-4,4] U {i64 boundaries}) as context variables (+ literal forms); glue streams: full product of "
+              "33 value specs (every ValueRepr / ObjectRepr / string representation / iterable flavour / maps / custom objects) x "
+              "58 key specs (none, undefined, bools, I64/U64/I128/U128 at the i64/u64/i128/u128 boundaries, floats incl. NaN/inf/"
+              "-0.0/2^63/fractions, strings, bytes, containers) in each of the three slice positions x 9 neighbour pairs under "
+              "Lenient via the Expression API, sampled 1/16 (thorough 1/2) for the other 3 undefined modes and 8 entry points "
+              "(template_from_str render, loader-backed render_captured_to, render_block, macro, for body, set, render_captured, "
+              "literals); subscripts likewise (+ Value::get_item, get_item_by_index, dot syntax); attributes; long random "
+              "sequences (len <= 2000, bounds near 0, +-len, +-2^31, +-2^63, +-2^64, +-2^127, 2^128-1); metamorphic relations; "
+              "a case is non-trivial when it is distinct and selects from a non-empty sequence")
     r.assumptions = ["sequences longer than 6 behave like the model predicts (proved for the model for every length)",
                      "bounds outside i64 are rejected by i64::try_from before slicing",
                      "one-shot iterators are subscripted with non-negative indexes only (an end-relative subscript has to count, i.e. consume, the iterator first; Python's generators are not subscriptable at all)"]
